@@ -214,7 +214,7 @@ class C04(Check):
 
     def shards(self, tier: str) -> list[Any]:
         sh: list[Any] = []
-        per = {"S": 24, "P": 96, "N": 24, "PF": 400, "NF": 64, "T": 400}
+        per = {"S": 48, "P": 96, "N": 24, "PF": 400, "NF": 64, "T": 400}
         for name, total in self.spaces(tier):
             for lo, hi in U.index_shards(total, per[name]):
                 sh.append((name, lo, hi))
